@@ -34,6 +34,48 @@ CHECKS = {
         "ref": "DESIGN.md §2.1, §3 C04",
         "note": "The 246 classifier productions are not modelled: their value-preservation is the explicit Refines contract, checked on every parsed file of the run.",
     },
+    "C06": {
+        "text": "Lean reductions with the frame hypothesis as an explicit structure (analyses read the token list through a view they keep): check_rules is read-only, repeatable, per-rule results are independent of the other rules (checkRules_solo), disabling a set removes exactly its violations from the all-phases report (checkRules_disable, report_disable) and permuting rules inside a sub-phase permutes nothing observable (checkRules_order); counter-models by `decide` show each statement fails when an analysis leaks state through a token attribute, and that the disable clause needs --all_phases. Tie (the frame hypothesis is TESTED on the real code): attribute snapshots of every token, rule object and module global around every rule's analyze; repeated checks; random and targeted disabled subsets with bisection to the interfering pair; shuffled intra-sub-phase order; analysis order, counters and logs compared with the Lean driver.",
+        "technique": "Lean 4 proof (reduction to a frame hypothesis, counter-models) + frame hypothesis tested on the real analyses",
+        "ref": "DESIGN.md §3 C06",
+        "note": "Partial by nature: Lean proves the reduction; that the ~960 real analyses satisfy the frame hypothesis is decided on explored inputs.",
+    },
+    "C12": {
+        "text": "Lean model of config.New's merge of -c files, Rule.configure (global / group / rule with the real guards and KeyError control flow, severity by name), rule_list.configure (unknown and deprecated rule errors) and apply_rules.configure_rules (file_list / file_rules). Theorems for all documents and rules: effective_precedence (the value after configuration is the one of the highest-priority level that sets it, nine levels, guards exactly as coded), merge_replaces_whole_entry and later_file_overrides_partial (per-attribute merging across files holds only when no rule key occurs in two files; the full statement is refuted by a `decide` witness reproduced on the CLI), unknown_rule_error, deprecated_rule_error, and the behavioural corollaries (disabled rules are never scheduled, fixable:false is report-only, warnings are not fixed) through the engine model; table facts over all 1049 rules. Tie: random layered configuration stacks through the real config.New + rule_list + configure_rules, every attribute of sampled rules compared with the Lean driver; behaviour clauses and error outcomes on the CLI.",
+        "technique": "Lean 4 proof (configuration precedence model) + differential testing of random layered configurations against the model",
+        "ref": "DESIGN.md §3 C12",
+    },
+    "C13": {
+        "text": "Lean model of check_rules / report_violations / fix scheduling with rule semantics as a parameter. Theorems for all rule lists, semantics, skip sets, initial states: check_rules_closed_form, analysed_allPhases_iff / analysed_gated_iff, firstFailing_spec, gated_is_prefix (the gated report is the all-phases report filtered by phase ≤ first failing phase; the stable sort by line commutes with the filter), gated_exit_eq_allphases_exit, skip_not_reported, out_of_range_phase_never_runs, fixRun_phase_bound (no _fix_violation of a rule beyond --fix_phase, in a skipped phase, disabled, unfixable or non-error), had_violations_iff_fixed. Tie: 2000 (thorough 10^5) random stub-rule scenarios through the REAL Rule.fix / check_rules / update code with stub rule classes whose semantics are also defined in Lean, every observable compared with the driver; real-rule runs gated vs -ap, --fix_phase 1..7, skip_phase from configuration, CLI.",
+        "technique": "Lean 4 proof (phase gating model) + stub-rule differential testing through the real engine",
+        "ref": "DESIGN.md §3 C13",
+    },
+    "C14": {
+        "text": "Lean model of the three stdout formats, JSON, JUnit and quality report as projections of one per-rule violation list, and of main's exit status. Theorems: formats_project_same_set, junit_is_error_filter, counts_eq_length, exit_zero_iff (exit flag false iff no error-type record, user-defined severities included), warnings_only_exit_zero, main_exit_zero_iff, main_stops_at_config_error; where the code keys on the severity NAME 'Error' instead of the type the full statements are refuted by `decide` witnesses (summary status word, quality-report severity) and kept as _partial. Tie: stub scenarios through the real report code with parsers back to records; real CLI runs with all formats at once under four severity set-ups, warnings-only inputs, a parse-failing file among good ones.",
+        "technique": "Lean 4 proof (report projections, exit status) + differential testing of all output formats",
+        "ref": "DESIGN.md §3 C14",
+    },
+    "C15": {
+        "text": "Lean scheduler model: any assignment of files to workers and any interleaving is an event list; under the frame hypothesis that processing a file does not change state other files read, the pool and the serial loop both produce files.map solo truncated at the first stop, in command-line order, and the exit status is the OR (sched_indep, sched_position, stop_truncates, stops_iff over apply_rules' four return sites); counter-models show independence fails when state leaks, also depending on the worker assignment. Tie (hypothesis tested): apply_rules in-process over permuted batches vs fresh-interpreter solo runs (exit, stdout, JSON, JUnit, fixed text); deep comparison of module-level state (config.dPragmas, default_conf, class attributes of rule and token classes, module globals of vsg.rules.*) around every call; CLI with -p 1/2/8, permutations, --stdin.",
+        "technique": "Lean 4 proof (scheduler reduction, counter-models) + frame hypothesis tested on the real code and CLI",
+        "ref": "DESIGN.md §3 C15",
+        "note": "OS scheduling and multiprocessing internals are parameters of the model.",
+    },
+    "C17": {
+        "text": "Lean model of Rule.get_configuration / rule_list.get_configuration / the -oc document and of reading it back. Theorems: oc_roundtrip (configuring a fresh rule with the emitted fragment reproduces every configurable attribute and the severity, given the name resolves), oc_idempotent, oc_rule_section_idempotent for the whole file (guards: distinct ids, configuration ⊆ __dict__ — table facts proved over all rules — built-in severities); the full property is refuted for user-defined severities by a witness (-oc omits the severity section). Tie: styles × random stacks through the real -oc path, emitted JSON fed back with no style, re-emitted and byte-compared; effective attributes of all rules, violations and fixed text on real files under both configurations; -rc fragments.",
+        "technique": "Lean 4 proof (emit/read-back round trip) + real -oc round trips compared byte for byte",
+        "ref": "DESIGN.md §3 C17",
+    },
+    "C18": {
+        "text": "Lean model of token_map.process_tokens (alias rules and guards as coded), every bisect look-up, 13 extraction helpers (the six that serve 58% of the rules first, all flag combinations of get_tokens_bounded_by) and update with the remap switch. Theorems: processTokens_spec (each key holds exactly the sorted positions of its tokens, so the index equals its recomputation), bisectLeft_eq_countLt and agreement with C07's line function, update_remap_fresh, valueOnly_keeps_index, remapFalse_valueOnly (`decide +kernel` over the regenerated rule table: every remap-false rule is unfixable or owned by one of five value-only _fix_violation owners), a *_sliceExact theorem per modelled extractor (modulo the beginning_of_file pseudo token) with the recorded line stated exactly, update_overwrites_analysed; negations proved for the extractors that do not return slices. Tie: at every extract call and every _get_tokens_of_interest of instrumented fix + check runs Lean recomputes the index from the token list and judges every region (identity of token objects by serial numbers); index, look-ups (incl. raising ones) and every modelled extractor call replayed through the driver.",
+        "technique": "Lean 4 proof (index and extractor models) + Lean-judged invariant at every analysis point of real runs",
+        "ref": "DESIGN.md §3 C18",
+    },
+    "C20": {
+        "text": "Lean theorems on the fix-only filter and the fix engine for all rule semantics and dictionaries: fixOnly_none_is_plain, fixOnly_filter_spec, fixOnly_lines (what is fixed = what is analysed at the moment the rule runs, filtered by the listed lines), fixOnly_all_eq_plain (same token list, same had_violations, same _fix_violation calls), fixOnly_empty_untouched (no _fix_violation invoked, only the post-phase-1 normalisation, nothing written), the KeyError paths. Tie: stub-rule scenarios through the real Rule.fix(dFixOnly) compared with the driver; real rules with all-rules:'all' (= plain fix), empty selection (= untouched) and random (rule, lines) selections where every changed line must be explained.",
+        "technique": "Lean 4 proof (fix-only filter) + stub-rule and real-rule differential testing",
+        "ref": "DESIGN.md §3 C20",
+    },
     "C07": {
         "text": "Lean theorems: line of a position = 1 + carriage returns before it; extract_tokens' line recomputation is that; update preserves the line count when every violation does; a case-only step keeps every token on its line. Tie: for every step of a whitespace / indent / alignment / case rule in the replayed runs the Lean checker compares the set of changed lines with the set of reported lines and the line count. Partial: the analyses that choose the reported line are not modelled (certificate-only).",
         "technique": "Lean 4 proof (line arithmetic, update homomorphism for line breaks) + Lean-checked trace certificates",
